@@ -63,7 +63,10 @@ def confirm(prop, src, sid):
         shutil.copy(patch, os.path.join(dst, "patch.diff"))
         shutil.copy(demo, os.path.join(dst, "demo.py"))
         notes = os.path.join(src, "notes.md")
-        rc, lines, wall = run_check(prop, wt)
+        if os.environ.get("SEEDED_NOCHECK"):
+            rc, lines, wall = None, ["check not run yet (property's check still being built)"], 0
+        else:
+            rc, lines, wall = run_check(prop, wt)
         meta = {
             "property": prop,
             "needs": open(notes).read() if os.path.exists(notes) else "",
